@@ -21,16 +21,20 @@ import (
 func judgeAcceptSet(seed uint64, mode byte, chunk uint32, o *fw.Obs) {
 	o.Nontrivial()
 	base := bechscan.Base(seed)
+	if mode == 2 {
+		base = bechscan.BaseHRP(seed, bechscan.WellKnownHRPs[int(chunk)%len(bechscan.WellKnownHRPs)])
+	}
 	var err error
 	if !o.Try("bech32.Decode(base)", func() { _, _, err = bech32.Decode(base) }) {
 		return
 	}
 	if err != nil {
-		o.Fail("base", "the valid string %+q is rejected by Decode: %v", base, err)
-		return
+		// Rejecting a valid string is C04's matter; for this property the string is still a valid Bech32
+		// string, and everything within four substitutions of it must be rejected as well: the scan goes on.
+		o.Count("valid base string rejected by Decode (left to C04); its neighbourhood is scanned all the same")
 	}
 	var next func() uint32
-	if mode == 0 {
+	if mode == 0 || mode == 2 {
 		list := bechscan.Targeted()
 		i := 0
 		next = func() uint32 {
@@ -61,6 +65,8 @@ func judgeAcceptSet(seed uint64, mode byte, chunk uint32, o *fw.Obs) {
 	o.Add("acceptance-set scan: checksum values tried through Decode", tried)
 	if mode == 0 {
 		o.Count("acceptance-set scan: targeted constants")
+	} else if mode == 2 {
+		o.Count("acceptance-set scan: targeted constants on a well-known human-readable part")
 	} else {
 		o.Count("acceptance-set scan: 2^22 chunks")
 	}
